@@ -64,12 +64,18 @@ func VerifH_C11_Concurrent() {
 	vfAssume(start <= vfMaxSeq)
 	snd := vfNewEnd("snd", server, -1, ua.MessageSecurityModeNone, nil, nil, vfC09Ack, nil, 5, 9, start)
 	n := int(snd.inst.maxBodySize) + 5
+	api := vfConcrete(vfInt("api", 0, 1)) // both ways a server sends: SendMsgWithContext / SendResponseWithContext
 	var wg sync.WaitGroup
 	for i := 0; i < 2; i++ {
 		wg.Add(1)
 		go func(id uint32) {
 			defer wg.Done()
-			err := snd.sc.SendMsgWithContext(context.Background(), nil, id, vfC07Resp(make([]byte, n)))
+			var err error
+			if api == 0 {
+				err = snd.sc.SendMsgWithContext(context.Background(), nil, id, vfC07Resp(make([]byte, n)))
+			} else {
+				err = snd.sc.SendResponseWithContext(context.Background(), id, vfC07Resp(make([]byte, n)))
+			}
 			vfAssert(err == nil, "sending fails")
 		}(uint32(200 + i))
 	}
